@@ -569,20 +569,44 @@ class Inliner:
         names = {}
         for h in self.helpers.values():
             names.setdefault(h.node.name, []).append(h)
+
+        def related(c1, c2):
+            return c1 == c2 or c1 in self._family(c2) or c2 in self._family(c1)
+
+        def count(m, body, prefix, clsqn):
+            for node in body:
+                if isinstance(node, ast.ClassDef):
+                    q = prefix + "." + node.name
+                    count(m, node.body, q, q)
+                    continue
+                for n in ast.walk(node):
+                    if isinstance(n, ast.Attribute) and n.attr in names:
+                        on_self = isinstance(n.value, ast.Name) and n.value.id in ("self", "cls")
+                        for h in names[n.attr]:
+                            if h.clsqn is None:
+                                if isinstance(n.value, ast.Name) and n.value.id in m.imports and m.imports[n.value.id] == h.modname:
+                                    h.refs += 1
+                            elif on_self and clsqn is not None:
+                                if related(h.clsqn, clsqn):
+                                    h.refs += 1
+                            else:
+                                h.refs += 1  # other receiver: may be any helper of that name
+                    elif isinstance(n, ast.Name) and n.id in names and isinstance(n.ctx, ast.Load):
+                        for h in names[n.id]:
+                            if h.clsqn is None and (h.modname == m.name or m.imports.get(n.id, "").startswith(h.modname + ".")):
+                                h.refs += 1
+                            elif h.clsqn is not None and clsqn is not None and related(h.clsqn, clsqn):
+                                h.refs += 1  # bare name inside the class body (e.g. used in a class-level table)
+                    elif isinstance(n, ast.alias) and n.name in names:
+                        for h in names[n.name]:
+                            if h.clsqn is None:
+                                h.refs += 1
+                    elif isinstance(n, ast.Constant) and isinstance(n.value, str) and n.value in names:
+                        for h in names[n.value]:
+                            h.refs += 1  # getattr(self, "name") style
+
         for m in self.modules.values():
-            for n in ast.walk(m.tree):
-                if isinstance(n, ast.Attribute) and n.attr in names:
-                    for h in names[n.attr]:
-                        h.refs += 1
-                elif isinstance(n, ast.Name) and n.id in names and isinstance(n.ctx, ast.Load):
-                    for h in names[n.id]:
-                        h.refs += 1
-                elif isinstance(n, ast.alias) and n.name in names:
-                    for h in names[n.name]:
-                        h.refs += 1
-                elif isinstance(n, ast.Constant) and isinstance(n.value, str) and n.value in names:
-                    for h in names[n.value]:
-                        h.refs += 1
+            count(m, m.tree.body, m.name, None)
         for h in self.helpers.values():
             removed = False
             if h.inlined and h.refs == 0:
@@ -979,7 +1003,7 @@ class _CopyProp:
         self.count = 0
 
     def run(self):
-        for _ in range(6):
+        for _ in range(400):
             if not self._once():
                 break
         return self.count
@@ -1035,6 +1059,18 @@ class _CopyProp:
                         stores.get(x) == 1
                         and x not in params
                         and x not in nested_use
+                        and not _is_pure(st.value)
+                        and self._adjacent_only(body, i, x, st.value)
+                        and self._uses_follow(body, i, x)
+                    ):
+                        self._substitute(body[i + 1 : i + 2], x, st.value)
+                        del body[i]
+                        self.count += 1
+                        return True
+                    if (
+                        stores.get(x) == 1
+                        and x not in params
+                        and x not in nested_use
                         and _is_pure(st.value)
                         and not (isinstance(st.value, ast.Name) and st.value.id == x)
                     ):
@@ -1052,6 +1088,8 @@ class _CopyProp:
                                     if ln >= order.get(id(st), 0) and (ch == r or r.startswith(ch + ".") or ch.startswith(r + ".")):
                                         ok = False
                         # single-assigned names read by the value must be defined before: they are, by program order
+                        if not ok and stores.get(x) == 1 and self._adjacent_only(body, i, x, st.value):
+                            ok = True  # nothing happens between the definition and its only use site
                         if ok and self._uses_follow(body, i, x):
                             self._substitute(body[i + 1 :], x, st.value)
                             del body[i]
@@ -1073,6 +1111,48 @@ class _CopyProp:
             return False
 
         return try_block(fn.body, False)
+
+    def _adjacent_only(self, body, i, x, value):
+        """x is used only in the header expression of the statement that immediately follows its
+        definition, and nothing with an effect is evaluated there besides x's own value: moving the
+        value into the use site changes nothing.  (A value with a call or a state read may be used once;
+        a value without calls any number of times.)"""
+        if i + 1 >= len(body):
+            return False
+        nxt = body[i + 1]
+        field = None
+        if isinstance(nxt, (ast.If, ast.Assert)):
+            field = "test"
+        elif isinstance(nxt, (ast.Return, ast.Expr, ast.Assign, ast.AugAssign, ast.AnnAssign)) and getattr(nxt, "value", None) is not None:
+            field = "value"
+        elif isinstance(nxt, ast.Raise) and nxt.exc is not None:
+            field = "exc"
+        if field is None:
+            return False
+        hdr = getattr(nxt, field)
+        uses_hdr = sum(1 for n in ast.walk(hdr) if isinstance(n, ast.Name) and n.id == x and isinstance(n.ctx, ast.Load))
+        uses_all = sum(1 for n in _own_nodes(self.fn) if isinstance(n, ast.Name) and n.id == x and isinstance(n.ctx, ast.Load))
+        if uses_hdr == 0 or uses_hdr != uses_all:
+            return False
+        for n in ast.walk(hdr):
+            if isinstance(n, (ast.Await, ast.Yield, ast.YieldFrom, ast.NamedExpr, ast.Lambda, ast.ListComp, ast.SetComp, ast.DictComp, ast.GeneratorExp)):
+                return False
+        for n in ast.walk(value):
+            if isinstance(n, (ast.Await, ast.Yield, ast.YieldFrom, ast.NamedExpr, ast.Lambda, ast.ListComp, ast.SetComp, ast.DictComp, ast.GeneratorExp)):
+                return False
+        value_calls = any(isinstance(n, ast.Call) and not _is_pure(n) for n in ast.walk(value))
+        hdr_calls = any(isinstance(n, ast.Call) and not _is_pure(n) for n in ast.walk(hdr))
+        if value_calls and (uses_hdr > 1 or hdr_calls):
+            return False
+        if hdr_calls and not _is_pure(value):
+            # a state read (subscript, membership) moved behind another call of the header: only if x is evaluated first
+            first = next((n for n in ast.walk(hdr) if isinstance(n, (ast.Name, ast.Call))), None)
+            if not (isinstance(first, ast.Name) and first.id == x):
+                return False
+        if isinstance(nxt, (ast.Assign, ast.AugAssign, ast.AnnAssign)):
+            # targets are evaluated after the value, fine; but the target must not be x itself
+            pass
+        return True
 
     def _uses_follow(self, body, i, x):
         """every use of x in the function lies in the statements after body[i]
